@@ -482,10 +482,21 @@ def adoptable(spec):
 
 
 def adopt(obj):
+    """the adopter has a second child of its own, with other types and qualifiers than the adoptee (listed AFTER it)"""
     par = lib.chrom_parent(GENOME)
     if isinstance(obj, TranscriptInterval):
-        return GeneInterval([obj], gene_id="adopter", parent_or_seq_chunk_parent=par)
-    return FeatureIntervalCollection([obj], feature_collection_id="adopter", parent_or_seq_chunk_parent=par)
+        sib = _tx([(15, 18)], "+", None, 0, None, qualifiers={"sib": ["1"]})
+        return GeneInterval([obj, sib], gene_id="adopter", qualifiers={"adopter": ["q"]}, parent_or_seq_chunk_parent=par)
+    sib = lib.mk_feat([(15, 18)], "+", None, sequence_name="chrV", feature_name="sib", feature_types=["zz"], qualifiers={"sib": ["1"]})
+    return FeatureIntervalCollection([obj, sib], feature_collection_id="adopter", qualifiers={"adopter": ["q"]}, parent_or_seq_chunk_parent=par)
+
+
+def content(obj):
+    """what an interval says about ITSELF (its dictionary form and type set), independent of who adopted it"""
+    import copy
+
+    o = answer(lambda: copy.deepcopy(obj.to_dict()))
+    return (o, sorted(getattr(obj, "feature_types", None) or []), str(getattr(obj, "guid", None)))
 
 
 def env_action(name, spec, obj=None):
@@ -574,8 +585,12 @@ def explore(res, spec, depth, sub=(0, 1)):
                     newh = hist + (opn,)
                     obj = rebuild(spec, newh, all_ops)
                 else:
+                    before = content(obj) if opn == ADOPT else None
                     env_action(opn, spec, obj)
                     newh = hist + (opn,)
+                    if opn == ADOPT and content(obj) != before:
+                        # being placed in a collection gives the child a parent, never other content (its siblings' types ...)
+                        res.deviation("adopt", dict(spec=spec, history=list(hist), op=ADOPT), _short(content(obj)), _short(before), sig="adoption-changes-content")
                 res.trans()
             else:
                 got = answer(lambda: all_ops[opn](obj))
